@@ -193,6 +193,7 @@ REGISTRY = {
         "rules": [
             registries.rule_compress_registry_1d, registries.rule_full_span, registries.rule_centre_shift, exponent.rule_sum_exponents, memo.rule_density_orientation,
             P(iso.rule_iso_claim, only_modules=("quimb.tensor.tensor_core",), rule="iso-claim[arithmetic]"),
+            registries.rule_fill_fn_siblings, registries.rule_length_delivered,
             P(dmrg.rule_sweep_memory, sites=[("quimb.tensor.tn1d.compress", "tensor_network_1d_compress_fit", None, "prepare")], rule="sweep-memory[fit]"),
             P(optflow.rule_option_delivery, opts=("max_bond", "cutoff"), modules=("quimb.tensor.tn1d",), rule="cap-delivery[1d]", floor=40),
             P(registries.rule_mode_total, specs=[
@@ -233,7 +234,7 @@ REGISTRY = {
         "assumptions": COMMON_ASSUMPTIONS,
     },
     "C04": {
-        "rules": [order.rule_gauge_order_binding, iso.rule_iso_invalidate, iso.rule_iso_claim, iso.rule_exp_compensate, iso.rule_strip_member, exponent.rule_view_accrual,
+        "rules": [order.rule_gauge_order_binding, iso.rule_iso_invalidate, iso.rule_iso_claim, iso.rule_gauge_record_agree, iso.rule_exp_compensate, iso.rule_strip_member, exponent.rule_view_accrual,
                   functools.partial(inplace.rule_inplace_effect, family=iso.rewrite_family, rule="inplace-effect[rewrites]", floor=40, controls=0)],
         "explanation": (
             "static: decides (a) the isometry flag left_inds as a typestate — dropped by every data write, low-level "
